@@ -101,6 +101,31 @@ def rule_g(rep: Report) -> None:
 			else:
 				r.ok(o.key, (o.file, o.line))
 	rep.consulted(SYNTAX_PY)
+	# scalar progress state: what the parser writes on its monitor during a parse is re-initialised when the next parse starts
+	m = idx.mod(SYNTAX_PY)
+	sp = m.cls('SyntaxParser')
+	written: dict[str, tuple] = {}
+	for name, defs in sp.methods.items():
+		if name == '__init__':
+			continue
+		for n in ast.walk(defs[-1].node):
+			if isinstance(n, (ast.Assign, ast.AugAssign)):
+				for t in (n.targets if isinstance(n, ast.Assign) else [n.target]):
+					if isinstance(t, ast.Attribute) and isinstance(t.value, ast.Attribute) and unparse(t.value.value) == 'self':
+						written.setdefault(f'{t.value.attr}.{t.attr}', (name, n))
+	pf = sp.method('parse')
+	for wa, (by, n) in sorted(written.items()):
+		holder, attr = wa.split('.')
+		resets = []
+		for c_ in ast.walk(pf.node):
+			if isinstance(c_, ast.Call) and isinstance(c_.func, ast.Attribute) and unparse(c_.func.value) == f'self.{holder}':
+				for cls_ in m.classes.values():
+					g = cls_.method(c_.func.attr)
+					if g is not None:
+						resets += [x for x in ast.walk(g.node) if isinstance(x, ast.Assign) and any(unparse(t) == f'self.{attr}' for t in x.targets) and isinstance(x.value, ast.Constant)]
+			if isinstance(c_, ast.Assign) and any(unparse(t) in (f'self.{holder}.{attr}', f'self.{holder}') for t in c_.targets):
+				resets.append(c_)
+		r.check(bool(resets), f'SyntaxParser.{wa}:reset-per-parse', (SYNTAX_PY, n.lineno), f'SyntaxParser.{by} writes self.{wa} during a parse and nothing re-initialises it when the next parse starts: a reused parser (gram_check loop) reports the next rejected text at a position left over from the previous one', unparse(n))
 
 
 def rule_f(rep: Report) -> None:
@@ -343,6 +368,22 @@ def rule_b(rep: Report) -> None:
 		conv = any(set(handler_types(h)) & {'Exception', 'BaseException'} and any(raised_name(x) == 'Errors.Syntax' for x in handler_raises(h)) for t in enclosing_tries(c_, pm_) for h in t.handlers)
 		r.check(conv, 'tokenizer-boundary', (SYNTAX_PY, c_.lineno), '`self.tokenizer.parse(source)` runs outside `except Exception -> raise Errors.Syntax`: a character the lexer cannot classify (backslash, non-ASCII identifier) escapes as AssertionError and a source ending in `-` as IndexError instead of Errors.Syntax', unparse(c_))
 	r.check(any(isinstance(n, ast.Raise) and 'Errors.Syntax' in unparse(n) for n in ast.walk(fx)), 'raises-syntax-error', f.where, 'parse no longer raises Errors.Syntax for an incomplete match')
+	# the summary names a token of the input: the index handed to ErrorCollector is `len - 1 - peek` with peek the furthest cursor reached (counted from the
+	# END, and equal to len(tokens) when the matcher probed one entry before token 0), so it is -1 unless clamped at 0
+	from vlib.match import FI as _FI
+	pfx = _FI(f)
+	ecs = [c_ for c_ in ast.walk(pfx) if isinstance(c_, ast.Call) and unparse(c_.func).endswith('ErrorCollector') and len(c_.args) >= 3]
+	if not ecs:
+		r.skip('cause-index-in-range', f.where, 'parse no longer builds ErrorCollector(source, tokens, index)')
+	for c_ in ecs:
+		ix = c_.args[2]
+		clamped = isinstance(ix, ast.Call) and unparse(ix.func) == 'max' and any(isinstance(a, ast.Constant) and a.value == 0 for a in ix.args)
+		guarded = any(isinstance(a, ast.Compare) and len(a.ops) == 1 and isinstance(a.ops[0], (ast.GtE, ast.Lt, ast.Gt, ast.LtE)) and 'peek' in unparse(a) for a, _ in atoms(pfx, c_))
+		uses_peek = any(isinstance(x, ast.Attribute) and x.attr == 'peek' for x in ast.walk(ix))
+		if clamped or guarded or not uses_peek:
+			r.ok('cause-index-in-range', (SYNTAX_PY, c_.lineno))
+		else:
+			r.violate('cause-index-in-range', (SYNTAX_PY, c_.lineno), f'parse reports the cause token at index `{unparse(ix)[:80]}` with no lower bound: monitor.peek equals len(tokens) when the matcher has walked back to the first token and probed beyond it (`= b`, `+ b`, `elif b: ...`), so the index is -1 and the summary names the LAST token and line `(0)`, not a token of the rejected position', unparse(c_)[:160])
 
 
 def rule_c(rep: Report) -> None:
